@@ -36,6 +36,10 @@ type parrot struct {
 	Groups    []uint16
 	Shares    []uint16
 	SpecErr   string
+	// HelloCustom + ApplyPreset(spec): MakeSpec yields a fresh spec for every connection (ApplyPreset shares the
+	// extension objects of the spec it is given)
+	Custom   bool
+	MakeSpec func() (*tls.ClientHelloSpec, error)
 }
 
 var predefined = []struct {
@@ -98,6 +102,32 @@ func classify(name string, id tls.ClientHelloID) parrot {
 		p.SpecErr = err.Error()
 		return p
 	}
+	p.fromSpec(&spec)
+	return p
+}
+
+// extKind: 0 session_ticket, 1 pre_shared_key, 2 extended_master_secret, 3 psk_key_exchange_modes, 4 other
+func extKind(e tls.TLSExtension) int {
+	switch x := e.(type) {
+	case tls.ISessionTicketExtension:
+		return 0
+	case tls.PreSharedKeyExtension:
+		return 1
+	case *tls.ExtendedMasterSecretExtension:
+		return 2
+	case *tls.PSKKeyExchangeModesExtension:
+		return 3
+	case *tls.GenericExtension:
+		switch x.Id {
+		case 23:
+			return 2
+		}
+	}
+	return 4
+}
+
+// fromSpec classifies by reflection over the spec's extension objects
+func (p *parrot) fromSpec(spec *tls.ClientHelloSpec) {
 	for _, s := range spec.CipherSuites {
 		if !isGrease16(s) {
 			p.Suites = append(p.Suites, s)
@@ -105,27 +135,19 @@ func classify(name string, id tls.ClientHelloID) parrot {
 	}
 	sawSV := false
 	for _, e := range spec.Extensions {
-		kind := 4
-		switch e.(type) {
-		case tls.ISessionTicketExtension:
-			kind = 0
-		case tls.PreSharedKeyExtension:
-			kind = 1
-		case *tls.ExtendedMasterSecretExtension:
-			kind = 2
-		case *tls.PSKKeyExchangeModesExtension:
-			kind = 3
-		}
+		kind := extKind(e)
 		p.Exts = append(p.Exts, kind)
-		switch x := e.(type) {
-		case tls.ISessionTicketExtension:
+		switch kind {
+		case 0:
 			p.HasTicket = true
-		case tls.PreSharedKeyExtension:
+		case 1:
 			p.HasPSK = true
-		case *tls.ExtendedMasterSecretExtension:
+		case 2:
 			p.HasEMS = true
-		case *tls.PSKKeyExchangeModesExtension:
+		case 3:
 			p.HasModes = true
+		}
+		switch x := e.(type) {
 		case *tls.SupportedVersionsExtension:
 			sawSV = true
 			for _, v := range x.Versions {
@@ -161,6 +183,66 @@ func classify(name string, id tls.ClientHelloID) parrot {
 		// without a supported_versions extension the hello offers its legacy version (TLS 1.2) and below only,
 		// whatever TLSVersMax says (ApplyConfig, u_conn.go)
 	}
+}
+
+// dropKinds removes the extensions of the given kinds from a spec
+func dropKinds(spec *tls.ClientHelloSpec, drop []int) {
+	var keep []tls.TLSExtension
+	for _, e := range spec.Extensions {
+		k := extKind(e)
+		dropped := false
+		for _, d := range drop {
+			if d == k {
+				dropped = true
+			}
+		}
+		if !dropped {
+			keep = append(keep, e)
+		}
+	}
+	spec.Extensions = keep
+}
+
+// customFromID: HelloCustom + ApplyPreset(UTLSIdToSpec(base) minus some extension kinds)
+func customFromID(name string, base tls.ClientHelloID, drop ...int) parrot {
+	mk := func() (*tls.ClientHelloSpec, error) {
+		spec, err := tls.UTLSIdToSpec(base)
+		if err != nil {
+			return nil, err
+		}
+		dropKinds(&spec, drop)
+		return &spec, nil
+	}
+	return customParrot(name, mk)
+}
+
+// customFingerprinted: HelloCustom + ApplyPreset(Fingerprinter(ClientHello built for base) minus some kinds)
+func customFingerprinted(name string, base tls.ClientHelloID, drop ...int) parrot {
+	mk := func() (*tls.ClientHelloSpec, error) {
+		uc := tls.UClient(nopConn{}, &tls.Config{ServerName: "a.test", OmitEmptyPsk: true}, base)
+		if err := uc.BuildHandshakeState(); err != nil {
+			return nil, err
+		}
+		raw := uc.HandshakeState.Hello.Raw
+		rec := append([]byte{22, 3, 1, byte(len(raw) >> 8), byte(len(raw))}, raw...)
+		spec, err := (&tls.Fingerprinter{AllowBluntMimicry: true}).FingerprintClientHello(rec)
+		if err != nil {
+			return nil, err
+		}
+		dropKinds(spec, drop)
+		return spec, nil
+	}
+	return customParrot(name, mk)
+}
+
+func customParrot(name string, mk func() (*tls.ClientHelloSpec, error)) parrot {
+	p := parrot{Name: name, ID: tls.HelloCustom, Custom: true, MakeSpec: mk}
+	spec, err := mk()
+	if err != nil {
+		p.SpecErr = err.Error()
+		return p
+	}
+	p.fromSpec(spec)
 	return p
 }
 
@@ -520,8 +602,24 @@ func (w *world) connect(pl connPlan) (o connObs) {
 	var uc *tls.UConn
 	var lp *lenPSK
 	panicked, pv := vh.Recover(func() {
-		uc = tls.UClient(crc, cfg, id)
-		if pl.WrapPSK && pl.P.HasPSK && !pl.P.Golang {
+		if pl.P.Custom {
+			// no preset of its own: the spec is applied by the caller. Without the option a spec that lacks a session
+			// extension panics by design when a session is found (documented "exception").
+			cfg.PreferSkipResumptionOnNilExtension = true
+			uc = tls.UClient(crc, cfg, tls.HelloCustom)
+			spec, err := pl.P.MakeSpec()
+			if err != nil {
+				o.CliErr = "spec: " + err.Error()
+				return
+			}
+			if err := uc.ApplyPreset(spec); err != nil {
+				o.CliErr = "ApplyPreset: " + err.Error()
+				return
+			}
+		} else {
+			uc = tls.UClient(crc, cfg, id)
+		}
+		if pl.WrapPSK && pl.P.HasPSK && !pl.P.Golang && !pl.P.Custom {
 			lp = &lenPSK{UtlsPreSharedKeyExtension: &tls.UtlsPreSharedKeyExtension{}}
 			if err := uc.SetPskExtension(lp); err != nil {
 				o.CliErr = "SetPskExtension: " + err.Error()
